@@ -73,7 +73,10 @@ impl<'a> Remote<'a> {
                 crate::yield_now()
             }
         }
-        if !notified && let Some(ref waker) = shared.waker {
+        // Always notify *after* the id is in the queue: a notification sent from the
+        // full-queue path above may already have been consumed by the time the push
+        // lands, and the consumer would park with this id still queued.
+        if let Some(ref waker) = shared.waker {
             waker.wake_by_ref();
         }
 
